@@ -6,55 +6,138 @@ import KrroodVerif.Props.C15
 Model: `stepC` / `runC` (the monitored container: contents + log of `_on_add` hook calls), under a `Quirks` record.
 Spec: `specStepC` / `specC` (Python list / set semantics; every element that becomes part of the field enters the
 log). The log is what gets asserted into the symbol graph, so by C15 the relations are the closure of the log
-(`C16_relations`).
+(`C16_relations`). Everything is parametric in `key : Nat → Nat`, the value an object compares by: lists store by
+position and identity, sets keep the first of several equal elements, relations are per OBJECT.
 -/
 namespace KrroodVerif.PD
 
-/-- model state and specification state agree: same contents (as a list for list fields, as a set for set fields),
-same elements asserted, and everything stored has been asserted -/
-structure CRel (isSet : Bool) (m s : CState) : Prop where
-  list_eq : isSet = false → m.c = s.c
-  mem_c : ∀ x, x ∈ m.c ↔ x ∈ s.c
+/-- model state and specification state agree: same contents (position by position; a set in insertion order), same
+elements asserted, everything stored has been asserted, and a set holds no two equal elements -/
+structure CRel (key : Nat → Nat) (isSet : Bool) (m s : CState) : Prop where
+  c_eq : m.c = s.c
   mem_calls : ∀ x, x ∈ m.calls ↔ x ∈ s.calls
   c_in_calls : ∀ x ∈ m.c, x ∈ m.calls
+  kd : isSet = true → KeyDistinct key m.c
 
-theorem mem_rawAdd (isSet : Bool) (c : List Nat) (x y : Nat) : y ∈ rawAdd isSet c x ↔ y ∈ c ∨ y = x := by
-  unfold rawAdd storeAdd kindOfSet
-  cases isSet
-  · simp [List.mem_append]
-  · by_cases hc : x ∈ c
-    · simp only [if_true, hc]
-      constructor
-      · exact Or.inl
-      · rintro (h | rfl); exact h; exact hc
-    · simp [hc, List.mem_append]
+theorem rawAdd_list (key : Nat → Nat) (c : List Nat) (x : Nat) : rawAdd key false c x = c ++ [x] := by
+  simp [rawAdd]
 
-theorem mem_foldl_rawAdd (isSet : Bool) (xs : List Nat) : ∀ (c : List Nat) (y : Nat),
-    y ∈ xs.foldl (rawAdd isSet) c ↔ y ∈ c ∨ y ∈ xs := by
+theorem mem_rawAdd_sub (key : Nat → Nat) (isSet : Bool) (c : List Nat) (x y : Nat)
+    (h : y ∈ rawAdd key isSet c x) : y ∈ c ∨ y = x := by
+  unfold rawAdd at h
+  split at h
+  · split at h
+    · exact Or.inl h
+    · simpa [List.mem_append] using h
+  · simpa [List.mem_append] using h
+
+theorem mem_foldl_rawAdd_sub (key : Nat → Nat) (isSet : Bool) (xs : List Nat) : ∀ (c : List Nat) (y : Nat),
+    y ∈ xs.foldl (rawAdd key isSet) c → y ∈ c ∨ y ∈ xs := by
   induction xs with
-  | nil => intro c y; simp
+  | nil => intro c y h; exact Or.inl h
   | cons x xs ih =>
-    intro c y
-    simp only [List.foldl_cons, ih, mem_rawAdd, List.mem_cons]
-    constructor
-    · rintro ((h | h) | h); exact Or.inl h; exact Or.inr (Or.inl h); exact Or.inr (Or.inr h)
-    · rintro (h | h | h); exact Or.inl (Or.inl h); exact Or.inl (Or.inr h); exact Or.inr h
+    intro c y h
+    simp only [List.foldl_cons] at h
+    rcases ih _ _ h with h | h
+    · rcases mem_rawAdd_sub key isSet c x y h with h | h
+      · exact Or.inl h
+      · exact Or.inr (h ▸ List.mem_cons_self)
+    · exact Or.inr (List.mem_cons_of_mem _ h)
 
-theorem foldl_rawAdd_list (xs : List Nat) : ∀ c : List Nat, xs.foldl (rawAdd false) c = c ++ xs := by
+theorem foldl_rawAdd_list (key : Nat → Nat) (xs : List Nat) :
+    ∀ c : List Nat, xs.foldl (rawAdd key false) c = c ++ xs := by
   induction xs with
   | nil => intro c; simp
-  | cons x xs ih =>
-    intro c
-    simp only [List.foldl_cons, ih]
-    simp [rawAdd, storeAdd, kindOfSet]
+  | cons x xs ih => intro c; simp only [List.foldl_cons, ih, rawAdd_list]; simp
 
-theorem foldl_addItemC (isSet : Bool) (xs : List Nat) : ∀ σ : CState,
-    xs.foldl (addItemC isSet) σ = ⟨xs.foldl (rawAdd isSet) σ.c, σ.calls ++ xs⟩ := by
+theorem foldl_addItemC (key : Nat → Nat) (isSet : Bool) (xs : List Nat) : ∀ σ : CState,
+    xs.foldl (addItemC key isSet) σ = ⟨xs.foldl (rawAdd key isSet) σ.c, σ.calls ++ xs⟩ := by
   induction xs with
   | nil => intro σ; simp
   | cons x xs ih =>
     intro σ
     simp only [List.foldl_cons, ih, addItemC, List.append_assoc, List.singleton_append]
+
+/-- a set stays free of equal elements -/
+theorem kd_rawAdd (key : Nat → Nat) (c : List Nat) (x : Nat) (h : KeyDistinct key c) :
+    KeyDistinct key (rawAdd key true c x) := by
+  unfold rawAdd
+  simp only [if_true]
+  split
+  · exact h
+  · rename_i hany
+    simp only [List.any_eq_true, beq_iff_eq, not_exists, not_and] at hany
+    unfold KeyDistinct
+    rw [List.pairwise_append]
+    refine ⟨h, List.pairwise_singleton _ _, ?_⟩
+    intro a ha b hb
+    simp only [List.mem_singleton] at hb
+    subst hb
+    exact hany a ha
+
+theorem kd_foldl (key : Nat → Nat) (xs : List Nat) : ∀ c, KeyDistinct key c →
+    KeyDistinct key (xs.foldl (rawAdd key true) c) := by
+  induction xs with
+  | nil => intro c h; exact h
+  | cons x xs ih => intro c h; exact ih _ (kd_rawAdd key c x h)
+
+theorem kd_nil (key : Nat → Nat) : KeyDistinct key [] := List.Pairwise.nil
+
+/-- re-adding the elements of a set that holds no equal elements reproduces it -/
+theorem foldl_rawAdd_kd (key : Nat → Nat) (c : List Nat) : ∀ c0, KeyDistinct key (c0 ++ c) →
+    c.foldl (rawAdd key true) c0 = c0 ++ c := by
+  induction c with
+  | nil => intro c0 _; simp
+  | cons x c ih =>
+    intro c0 h
+    have hx : rawAdd key true c0 x = c0 ++ [x] := by
+      unfold rawAdd
+      simp only [if_true]
+      have hany : (c0.any (fun y => key y == key x)) = false := by
+        rw [List.any_eq_false]
+        intro a ha
+        unfold KeyDistinct at h
+        rw [List.pairwise_append] at h
+        simpa using h.2.2 a ha x List.mem_cons_self
+      simp only [hany, Bool.false_eq_true, if_false]
+    simp only [List.foldl_cons, hx]
+    rw [ih (c0 ++ [x]) (by simpa [List.append_assoc] using h)]
+    simp [List.append_assoc]
+
+/-- clear-and-re-add leaves the contents as they were -/
+theorem refold (key : Nat → Nat) (isSet : Bool) (d : List Nat) (h : isSet = true → KeyDistinct key d) :
+    d.foldl (rawAdd key isSet) [] = d := by
+  cases isSet
+  · rw [foldl_rawAdd_list]; rfl
+  · rw [foldl_rawAdd_kd key d [] (by simpa using h rfl)]; rfl
+
+/-- with pairwise unequal objects the raw add is membership-based -/
+theorem mem_foldl_rawAdd_inj (key : Nat → Nat) (hinj : ∀ a b, key a = key b → a = b) (isSet : Bool)
+    (xs : List Nat) : ∀ (c : List Nat) (y : Nat), y ∈ xs.foldl (rawAdd key isSet) c ↔ y ∈ c ∨ y ∈ xs := by
+  have h1 : ∀ (c : List Nat) (x y : Nat), y ∈ rawAdd key isSet c x ↔ y ∈ c ∨ y = x := by
+    intro c x y
+    unfold rawAdd
+    cases isSet
+    · simp [List.mem_append]
+    · simp only [if_true]
+      split
+      · rename_i hany
+        simp only [List.any_eq_true, beq_iff_eq] at hany
+        obtain ⟨z, hz, hk⟩ := hany
+        have := hinj z x hk
+        subst this
+        constructor
+        · exact Or.inl
+        · rintro (h | rfl); exact h; exact hz
+      · simp [List.mem_append]
+  induction xs with
+  | nil => intro c y; simp
+  | cons x xs ih =>
+    intro c y
+    simp only [List.foldl_cons, ih, h1, List.mem_cons]
+    constructor
+    · rintro ((h | h) | h); exact Or.inl h; exact Or.inr (Or.inl h); exact Or.inr (Or.inr h)
+    · rintro (h | h | h); exact Or.inl (Or.inl h); exact Or.inl (Or.inr h); exact Or.inr h
 
 theorem mem_insertSorted (x y : Nat) (ys : List Nat) : y ∈ insertSorted x ys ↔ y = x ∨ y ∈ ys := by
   induction ys with
@@ -76,19 +159,21 @@ theorem mem_hashOrder (xs : List Nat) (y : Nat) : y ∈ hashOrder xs ↔ y ∈ x
   | nil => simp
   | cons x xs ih => simp only [List.foldr_cons, mem_insertSorted, ih, List.mem_cons]
 
-theorem mem_walkOrder (Q : Quirks) (isSet : Bool) (xs : List Nat) (y : Nat) :
-    y ∈ walkOrder Q isSet xs ↔ y ∈ xs := by
+theorem mem_walkOrder (Q : Quirks) (xs : List Nat) (y : Nat) : y ∈ walkOrder Q xs ↔ y ∈ xs := by
   unfold walkOrder; split
   · exact mem_hashOrder xs y
   · rfl
 
-theorem setterC_eq (Q : Quirks) (isSet : Bool) (σ : CState) (v : Assigned) :
-    setterC Q isSet σ v =
+theorem walkOrder_off (Q : Quirks) (h : Q.setterHashOrder = false) (xs : List Nat) : walkOrder Q xs = xs := by
+  simp [walkOrder, h]
+
+theorem setterC_eq (key : Nat → Nat) (Q : Quirks) (isSet : Bool) (σ : CState) (v : Assigned) :
+    setterC key Q isSet σ v =
       let items := match v with
-        | .same => if Q.setterClearsAlias then [] else walkOrder Q isSet σ.c
-        | .other xs => walkOrder Q isSet xs
-        | .lazyOf v => walkOrder Q isSet (v.eval (if Q.setterClearsAlias then [] else σ.c))
-      ⟨items.foldl (rawAdd isSet) [], σ.calls ++ items⟩ := by
+        | .same => if Q.setterClearsAlias then [] else walkOrder Q σ.c
+        | .other xs => walkOrder Q xs
+        | .lazyOf v => walkOrder Q (v.eval key (if Q.setterClearsAlias then [] else σ.c))
+      ⟨items.foldl (rawAdd key isSet) [], σ.calls ++ items⟩ := by
   cases v <;> simp only [setterC, foldl_addItemC]
 
 theorem mem_pyInsert (c : List Nat) (i : Int) (x y : Nat) : y ∈ pyInsert c i x ↔ y ∈ c ∨ y = x := by
@@ -108,223 +193,190 @@ theorem mem_pySetItem (c : List Nat) (i : Int) (x y : Nat) (h : y ∈ pySetItem 
   · exact List.mem_or_eq_of_mem_set h
   · exact Or.inl h
 
-/-- what an iterable over the container yields depends, as a set, only on the container as a set -/
-theorem View.eval_mem_congr (v : View) (c c' : List Nat) (h : ∀ y, y ∈ c ↔ y ∈ c') (y : Nat) :
-    y ∈ v.eval c ↔ y ∈ v.eval c' := by
-  cases v with
-  | filt keep => simp only [View.eval, List.mem_filter, h]
-  | rev => simp only [View.eval, List.mem_reverse, h]
-  | iter => exact h y
-  | chain xs => simp only [View.eval, List.mem_append, h]
-  | keys => simp only [View.eval, mem_foldl_rawAdd, List.not_mem_nil, false_or, h]
-
 /-- one operation outside the triggers keeps model and specification in agreement -/
-theorem stepC_rel (Q : Quirks) (isSet : Bool) (m s : CState) (op : COp) (h : CRel isSet m s)
-    (hok : op.okFor Q isSet = true) (happ : op.applicable isSet = true) :
-    CRel isSet (stepC Q isSet m op) (specStepC isSet s op) := by
+theorem stepC_rel (key : Nat → Nat) (Q : Quirks) (isSet : Bool) (m s : CState) (op : COp)
+    (h : CRel key isSet m s) (hinj : Q.inplaceBypass = true → ∀ a b, key a = key b → a = b)
+    (hok : op.okFor Q = true) (happ : op.applicable isSet = true) :
+    CRel key isSet (stepC key Q isSet m op) (specStepC key isSet s op) := by
+  obtain ⟨mc, ml⟩ := m
+  obtain ⟨sc, sl⟩ := s
+  obtain ⟨hc, hcalls, hin, hkd⟩ := h
+  simp only at hc hcalls hin hkd
+  subst hc
+  have kdset : ∀ {d : List Nat}, (isSet = true → KeyDistinct key d) → ∀ xs : List Nat,
+      isSet = true → KeyDistinct key (xs.foldl (rawAdd key isSet) d) := by
+    intro d hd xs hl; subst hl; exact kd_foldl key xs d (hd rfl)
   cases op with
   | append x =>
     simp only [stepC, specStepC, addItemC]
-    refine ⟨fun hl => by rw [h.list_eq hl], ?_, ?_, ?_⟩
-    · intro y; simp only [mem_rawAdd, h.mem_c]
-    · intro y; simp only [List.mem_append, h.mem_calls]
+    refine ⟨rfl, ?_, ?_, ?_⟩
+    · intro y; simp only [List.mem_append, hcalls]
     · intro y hy
-      rcases (mem_rawAdd _ _ _ _).mp hy with hy | rfl
-      · exact List.mem_append_left _ (h.c_in_calls y hy)
+      rcases mem_rawAdd_sub key isSet mc x y hy with hy | rfl
+      · exact List.mem_append_left _ (hin y hy)
       · simp
+    · intro hl; subst hl; exact kd_rawAdd key mc x (hkd rfl)
   | extend xs =>
     simp only [stepC, specStepC, foldl_addItemC]
-    refine ⟨fun hl => by rw [h.list_eq hl], ?_, ?_, ?_⟩
-    · intro y; simp only [mem_foldl_rawAdd, h.mem_c]
-    · intro y; simp only [List.mem_append, h.mem_calls]
+    refine ⟨rfl, ?_, ?_, kdset hkd xs⟩
+    · intro y; simp only [List.mem_append, hcalls]
     · intro y hy
-      rcases (mem_foldl_rawAdd _ _ _ _).mp hy with hy | hy
-      · exact List.mem_append_left _ (h.c_in_calls y hy)
+      rcases mem_foldl_rawAdd_sub key isSet xs mc y hy with hy | hy
+      · exact List.mem_append_left _ (hin y hy)
       · exact List.mem_append_right _ hy
   | insert i x =>
+    have hl : isSet = false := by simpa [COp.applicable] using happ
     simp only [stepC, specStepC]
-    refine ⟨fun hl => by rw [h.list_eq hl], ?_, ?_, ?_⟩
-    · intro y; simp only [mem_pyInsert, h.mem_c]
-    · intro y; simp only [List.mem_append, h.mem_calls]
+    refine ⟨rfl, ?_, ?_, fun h' => by rw [hl] at h'; cases h'⟩
+    · intro y; simp only [List.mem_append, hcalls]
     · intro y hy
       rcases (mem_pyInsert _ _ _ _).mp hy with hy | rfl
-      · exact List.mem_append_left _ (h.c_in_calls y hy)
+      · exact List.mem_append_left _ (hin y hy)
       · simp
   | setitem i x =>
     have hl : isSet = false := by simpa [COp.applicable] using happ
     simp only [stepC, specStepC]
-    have hc := h.list_eq hl
-    refine ⟨fun _ => by rw [hc], ?_, ?_, ?_⟩
-    · intro y; rw [hc]
-    · intro y; simp only [List.mem_append, h.mem_calls]
+    refine ⟨rfl, ?_, ?_, fun h' => by rw [hl] at h'; cases h'⟩
+    · intro y; simp only [List.mem_append, hcalls]
     · intro y hy
       rcases mem_pySetItem _ _ _ _ hy with hy | rfl
-      · exact List.mem_append_left _ (h.c_in_calls y hy)
+      · exact List.mem_append_left _ (hin y hy)
       · simp
   | assign xs =>
-    simp only [stepC, specStepC, setterC_eq]
-    refine ⟨?_, ?_, ?_, ?_⟩
-    · intro hl
-      subst hl
-      simp only [COp.okFor, Bool.false_or, Bool.or_eq_true, Bool.not_eq_eq_eq_not, Bool.not_true,
-        beq_iff_eq] at hok
-      have : walkOrder Q false xs = xs := by
-        unfold walkOrder
-        rcases hok with hq | hq
-        · simp [hq]
-        · split
-          · exact hq
-          · rfl
-      simp only [this]
-    · intro y; simp only [mem_foldl_rawAdd, mem_walkOrder]
-    · intro y; simp only [List.mem_append, mem_walkOrder, h.mem_calls]
+    have hw : walkOrder Q xs = xs := by
+      simp only [COp.okFor, Bool.or_eq_true, Bool.not_eq_eq_eq_not, Bool.not_true, beq_iff_eq] at hok
+      rcases hok with hq | hq
+      · exact walkOrder_off Q hq xs
+      · unfold walkOrder; split
+        · exact hq
+        · rfl
+    simp only [stepC, specStepC, setterC_eq, hw]
+    refine ⟨rfl, ?_, ?_, kdset (fun _ => kd_nil key) xs⟩
+    · intro y; simp only [List.mem_append, hcalls]
     · intro y hy
-      rcases (mem_foldl_rawAdd _ _ _ _).mp hy with hy | hy
+      rcases mem_foldl_rawAdd_sub key isSet xs [] y hy with hy | hy
       · simp at hy
       · exact List.mem_append_right _ hy
   | assignSelf =>
-    simp only [COp.okFor, Bool.and_eq_true, Bool.not_eq_eq_eq_not, Bool.not_true, Bool.or_eq_true] at hok
+    simp only [COp.okFor, Bool.and_eq_true, Bool.not_eq_eq_eq_not, Bool.not_true] at hok
     obtain ⟨hq1, hq2⟩ := hok
-    simp only [stepC, specStepC, setterC_eq, hq1, Bool.false_eq_true, if_false]
-    refine ⟨?_, ?_, ?_, ?_⟩
-    · intro hl
-      subst hl
-      have hq3 : Q.setterHashOrder = false := by simpa using hq2
-      have : walkOrder Q false m.c = m.c := by simp [walkOrder, hq3]
-      simp only [this, foldl_rawAdd_list, List.nil_append]
-      exact h.list_eq rfl
-    · intro y; simp only [mem_foldl_rawAdd, mem_walkOrder, List.not_mem_nil, false_or, h.mem_c]
+    simp only [stepC, specStepC, setterC_eq, hq1, Bool.false_eq_true, if_false, walkOrder_off Q hq2,
+      refold key isSet mc hkd]
+    refine ⟨rfl, ?_, ?_, hkd⟩
     · intro y
-      simp only [List.mem_append, mem_walkOrder]
-      rw [← h.mem_calls]
+      simp only [List.mem_append]
+      rw [← hcalls]
       constructor
-      · rintro (hy | hy); exact hy; exact h.c_in_calls y hy
+      · rintro (hy | hy); exact hy; exact hin y hy
       · exact Or.inl
-    · intro y hy
-      rcases (mem_foldl_rawAdd _ _ _ _).mp hy with hy | hy
-      · simp at hy
-      · exact List.mem_append_right _ hy
+    · intro y hy; exact List.mem_append_right _ hy
   | assignView v =>
-    simp only [COp.okFor, Bool.and_eq_true, Bool.not_eq_eq_eq_not, Bool.not_true, Bool.or_eq_true] at hok
+    simp only [COp.okFor, Bool.and_eq_true, Bool.not_eq_eq_eq_not, Bool.not_true] at hok
     obtain ⟨hq1, hq2⟩ := hok
-    simp only [stepC, specStepC, setterC_eq, hq1, Bool.false_eq_true, if_false]
-    refine ⟨?_, ?_, ?_, ?_⟩
-    · intro hl
-      subst hl
-      have hq3 : Q.setterHashOrder = false := by simpa using hq2
-      have : ∀ l, walkOrder Q false l = l := by intro l; simp [walkOrder, hq3]
-      simp only [this, h.list_eq rfl]
-    · intro y
-      simp only [mem_foldl_rawAdd, mem_walkOrder, List.not_mem_nil, false_or]
-      exact View.eval_mem_congr v _ _ h.mem_c y
-    · intro y
-      simp only [List.mem_append, mem_walkOrder, h.mem_calls, View.eval_mem_congr v _ _ h.mem_c y]
+    simp only [stepC, specStepC, setterC_eq, hq1, Bool.false_eq_true, if_false, walkOrder_off Q hq2]
+    refine ⟨rfl, ?_, ?_, kdset (fun _ => kd_nil key) _⟩
+    · intro y; simp only [List.mem_append, hcalls]
     · intro y hy
-      rcases (mem_foldl_rawAdd _ _ _ _).mp hy with hy | hy
+      rcases mem_foldl_rawAdd_sub key isSet _ [] y hy with hy | hy
       · simp at hy
       · exact List.mem_append_right _ hy
   | iadd xs =>
-    simp only [COp.okFor, Bool.and_eq_true, Bool.not_eq_eq_eq_not, Bool.not_true, Bool.or_eq_true] at hok
+    simp only [COp.okFor, Bool.and_eq_true, Bool.not_eq_eq_eq_not, Bool.not_true] at hok
     obtain ⟨hq1, hq2⟩ := hok
-    simp only [stepC, specStepC, setterC_eq, hq1, Bool.false_eq_true, if_false]
-    have hc1 : (inplaceC Q isSet m xs).c = xs.foldl (rawAdd isSet) m.c := by
+    have hd : isSet = true → KeyDistinct key (xs.foldl (rawAdd key isSet) mc) := kdset hkd xs
+    have hc1 : (inplaceC key Q isSet ⟨mc, ml⟩ xs).c = xs.foldl (rawAdd key isSet) mc := by
       unfold inplaceC; split
       · rfl
       · rw [foldl_addItemC]
-    have hcalls : ∀ y, y ∈ (inplaceC Q isSet m xs).calls ++ walkOrder Q isSet (inplaceC Q isSet m xs).c ↔
-        y ∈ m.calls ∨ y ∈ xs := by
-      intro y
-      simp only [List.mem_append, mem_walkOrder, hc1, mem_foldl_rawAdd]
-      unfold inplaceC; split
-      · constructor
-        · rintro (hy | hy | hy); exact Or.inl hy; exact Or.inl (h.c_in_calls y hy); exact Or.inr hy
+    simp only [stepC, specStepC, setterC_eq, hq1, Bool.false_eq_true, if_false, walkOrder_off Q hq2, hc1,
+      refold key isSet _ hd]
+    refine ⟨rfl, ?_, ?_, hd⟩
+    · intro y
+      simp only [List.mem_append]
+      rw [← hcalls]
+      unfold inplaceC
+      split
+      · rename_i hb
+        rw [mem_foldl_rawAdd_inj key (hinj hb) isSet xs mc y]
+        constructor
+        · rintro (hy | hy | hy); exact Or.inl hy; exact Or.inl (hin y hy); exact Or.inr hy
         · rintro (hy | hy); exact Or.inl hy; exact Or.inr (Or.inr hy)
       · rw [foldl_addItemC]
         simp only [List.mem_append]
         constructor
-        · rintro ((hy | hy) | hy | hy)
+        · rintro ((hy | hy) | hy)
           · exact Or.inl hy
           · exact Or.inr hy
-          · exact Or.inl (h.c_in_calls y hy)
-          · exact Or.inr hy
-        · rintro (hy | hy); exact Or.inl (Or.inl hy); exact Or.inr (Or.inr hy)
-    refine ⟨?_, ?_, ?_, ?_⟩
-    · intro hl
-      subst hl
-      have hq3 : Q.setterHashOrder = false := by simpa using hq2
-      have : ∀ l, walkOrder Q false l = l := by intro l; simp [walkOrder, hq3]
-      simp only [this, hc1, foldl_rawAdd_list, List.nil_append, h.list_eq rfl]
-    · intro y
-      simp only [mem_foldl_rawAdd, mem_walkOrder, hc1, List.not_mem_nil, false_or, h.mem_c]
-    · intro y
-      rw [hcalls]; simp only [List.mem_append, h.mem_calls]
-    · intro y hy
-      rcases (mem_foldl_rawAdd _ _ _ _).mp hy with hy | hy
-      · simp at hy
-      · exact List.mem_append_right _ hy
+          · rcases mem_foldl_rawAdd_sub key isSet xs mc y hy with hy | hy
+            · exact Or.inl (hin y hy)
+            · exact Or.inr hy
+        · rintro (hy | hy); exact Or.inl (Or.inl hy); exact Or.inl (Or.inr hy)
+    · intro y hy; exact List.mem_append_right _ hy
   | iaddAlias xs =>
     have hq : Q.inplaceBypass = false := by simpa [COp.okFor] using hok
     simp only [stepC, specStepC, inplaceC, hq, Bool.false_eq_true, if_false, foldl_addItemC]
-    refine ⟨fun hl => by rw [h.list_eq hl], ?_, ?_, ?_⟩
-    · intro y; simp only [mem_foldl_rawAdd, h.mem_c]
-    · intro y; simp only [List.mem_append, h.mem_calls]
+    refine ⟨rfl, ?_, ?_, kdset hkd xs⟩
+    · intro y; simp only [List.mem_append, hcalls]
     · intro y hy
-      rcases (mem_foldl_rawAdd _ _ _ _).mp hy with hy | hy
-      · exact List.mem_append_left _ (h.c_in_calls y hy)
+      rcases mem_foldl_rawAdd_sub key isSet xs mc y hy with hy | hy
+      · exact List.mem_append_left _ (hin y hy)
       · exact List.mem_append_right _ hy
 
-/-- **C16_general.** For every quirk setting: every sequence of write operations that stays outside the triggers of
-the quirks that are on leaves the field with the contents Python semantics dictate and has asserted exactly the
-elements that entered. -/
-theorem C16_general (Q : Quirks) (isSet : Bool) (ops : List COp) :
-    ∀ (m s : CState), CRel isSet m s →
-      (∀ op ∈ ops, op.okFor Q isSet = true ∧ op.applicable isSet = true) →
-      CRel isSet (runC Q isSet m ops) (specC isSet s ops) := by
+/-- **C16_general.** For every quirk setting and every notion of value equality `key`: every sequence of write
+operations that stays outside the triggers of the quirks that are on leaves the field with the contents Python
+semantics dictate and has asserted exactly the elements that entered. (With the historical `inplaceBypass` quirk on,
+`+=` / `|=` are only right for pairwise unequal objects.) -/
+theorem C16_general (key : Nat → Nat) (Q : Quirks) (isSet : Bool)
+    (hinj : Q.inplaceBypass = true → ∀ a b, key a = key b → a = b) (ops : List COp) :
+    ∀ (m s : CState), CRel key isSet m s →
+      (∀ op ∈ ops, op.okFor Q = true ∧ op.applicable isSet = true) →
+      CRel key isSet (runC key Q isSet m ops) (specC key isSet s ops) := by
   induction ops with
   | nil => intro m s h _; exact h
   | cons op ops ih =>
     intro m s h hops
     simp only [runC, specC, List.foldl_cons]
     have h1 := hops op List.mem_cons_self
-    exact ih _ _ (stepC_rel Q isSet m s op h h1.1 h1.2) (fun o ho => hops o (List.mem_cons_of_mem _ ho))
+    exact ih _ _ (stepC_rel key Q isSet m s op h hinj h1.1 h1.2) (fun o ho => hops o (List.mem_cons_of_mem _ ho))
 
-theorem CRel.refl_of (isSet : Bool) (σ : CState) (h : ∀ x ∈ σ.c, x ∈ σ.calls) : CRel isSet σ σ :=
-  ⟨fun _ => rfl, fun _ => Iff.rfl, fun _ => Iff.rfl, h⟩
+theorem CRel.refl_of (key : Nat → Nat) (isSet : Bool) (σ : CState) (h : ∀ x ∈ σ.c, x ∈ σ.calls)
+    (hk : isSet = true → KeyDistinct key σ.c) : CRel key isSet σ σ :=
+  ⟨rfl, fun _ => Iff.rfl, h, hk⟩
 
-theorem okFor_none (isSet : Bool) (op : COp) : op.okFor Quirks.none isSet = true := by
+theorem okFor_none (op : COp) : op.okFor Quirks.none = true := by
   cases op <;> simp [COp.okFor, Quirks.none]
 
-/-- **C16_full.** With the setter that snapshots the assigned value before clearing and preserves its order, and
-the in-place operators routed through `_add_item` (all quirks off): after ANY sequence of assignment of a new
-collection, self-assignment, `+=` / `|=` (with or without re-assignment), append, extend, insert, item assignment,
-add and update, from any contents, the field holds exactly what Python list / set semantics dictate and exactly the
-elements that entered have been asserted. -/
-theorem C16_full (isSet : Bool) (σ : CState) (hσ : ∀ x ∈ σ.c, x ∈ σ.calls) (ops : List COp)
+/-- **C16_full.** The repaired code (all quirks off), for every notion of value equality: after ANY sequence of
+assignment of a new collection, self-assignment, assignment of an iterable over the field's own live contents,
+`+=` / `|=` (with or without re-assignment), append, extend, insert, item assignment, add and update, from any
+contents, the field holds exactly what Python list / set semantics dictate — a list by position and identity,
+repetitions and equal-but-distinct elements included, a set the first of several equal elements — and exactly the
+elements that entered have been asserted, each OBJECT on its own. -/
+theorem C16_full (key : Nat → Nat) (isSet : Bool) (σ : CState) (hσ : ∀ x ∈ σ.c, x ∈ σ.calls)
+    (hk : isSet = true → KeyDistinct key σ.c) (ops : List COp)
     (happ : ∀ op ∈ ops, op.applicable isSet = true) :
-    CRel isSet (runC Quirks.none isSet σ ops) (specC isSet σ ops) :=
-  C16_general Quirks.none isSet ops σ σ (CRel.refl_of isSet σ hσ)
-    (fun op ho => ⟨okFor_none isSet op, happ op ho⟩)
+    CRel key isSet (runC key Quirks.none isSet σ ops) (specC key isSet σ ops) :=
+  C16_general key Quirks.none isSet (fun h => by cases h) ops σ σ (CRel.refl_of key isSet σ hσ hk)
+    (fun op ho => ⟨okFor_none op, happ op ho⟩)
 
-/-- **C16_partial.** The code as it is (all quirks on): the same holds for sequences of append, extend, insert,
-item assignment, add, update and assignment of a fresh collection that is a set, or a list already in hash order
-without repetitions — i.e. outside the four triggers. -/
-theorem C16_partial (isSet : Bool) (σ : CState) (hσ : ∀ x ∈ σ.c, x ∈ σ.calls) (ops : List COp)
+/-- **C16_partial.** The code as it was before the repairs (all quirks on), pairwise unequal objects: the same
+holds for sequences of append, extend, insert, item assignment, add, update and assignment of a fresh collection
+already in hash order without repetitions — i.e. outside the four triggers. -/
+theorem C16_partial (key : Nat → Nat) (hinj : ∀ a b, key a = key b → a = b) (isSet : Bool) (σ : CState)
+    (hσ : ∀ x ∈ σ.c, x ∈ σ.calls) (hk : isSet = true → KeyDistinct key σ.c) (ops : List COp)
     (happ : ∀ op ∈ ops, op.applicable isSet = true)
-    (h1 : trigSelfAssign ops = false) (h2 : trigIadd ops = false) (h3 : trigListOrder isSet ops = false)
+    (h1 : trigSelfAssign ops = false) (h2 : trigIadd ops = false) (h3 : trigListOrder ops = false)
     (h4 : trigBypass ops = false) :
-    CRel isSet (runC Quirks.asIs isSet σ ops) (specC isSet σ ops) := by
-  apply C16_general Quirks.asIs isSet ops σ σ (CRel.refl_of isSet σ hσ)
+    CRel key isSet (runC key Quirks.asIs isSet σ ops) (specC key isSet σ ops) := by
+  apply C16_general key Quirks.asIs isSet (fun _ => hinj) ops σ σ (CRel.refl_of key isSet σ hσ hk)
   intro op ho
   refine ⟨?_, happ op ho⟩
   cases op with
   | assign xs =>
-    cases isSet with
-    | true => simp [COp.okFor]
-    | false =>
-      simp only [trigListOrder, Bool.not_false, Bool.true_and, List.any_eq_false] at h3
-      have := h3 _ ho
-      simp only [bne_iff_ne, ne_eq, Decidable.not_not] at this
-      simp [COp.okFor, this]
+    simp only [trigListOrder, List.any_eq_false] at h3
+    have := h3 _ ho
+    simp only [bne_iff_ne, ne_eq, Decidable.not_not] at this
+    simp [COp.okFor, this]
   | assignSelf =>
     simp only [trigSelfAssign, List.any_eq_false] at h1
     exact absurd rfl (h1 _ ho)
@@ -342,8 +394,8 @@ theorem C16_partial (isSet : Bool) (σ : CState) (hσ : ∀ x ∈ σ.c, x ∈ σ
 /-- **C16_relations.** What the symbol graph holds after the writes: the elements in the hook log are asserted
 through `add_to_graph`, so (C15) the relations are exactly the closure of `(f, a, x)` for the elements `x` that
 entered according to the specification — "the same inferences as if appended individually", in any order. -/
-theorem C16_relations (S : Schema) (W : World) (hW : W.WF) (f a : Nat) (isSet : Bool) (m s : CState)
-    (h : CRel isSet m s)
+theorem C16_relations (S : Schema) (W : World) (hW : W.WF) (f a : Nat) (key : Nat → Nat) (isSet : Bool) (m s : CState)
+    (h : CRel key isSet m s)
     (hin : ∀ t ∈ m.calls, (f, a, t) ∈ allFacts S.fields.length W.size) (x : Fact) :
     x ∈ run (schemaRules S W) (fuelFor S W) (m.calls.map fun t => (f, a, t)) ↔
       Derivable (schemaRules S W) (fun y => ∃ t ∈ s.calls, y = (f, a, t)) x := by
@@ -359,123 +411,121 @@ theorem C16_relations (S : Schema) (W : World) (hW : W.WF) (f a : Nat) (isSet : 
     · rintro ⟨t, ht, rfl⟩; exact ⟨t, (h.mem_calls t).mpr ht, rfl⟩
   rw [this]
 
-/-! ### The four findings, as tests on concrete witnesses (`decide`), each inside its trigger -/
+/-! ### The four repaired findings, as tests on concrete witnesses (`decide`), each inside its trigger -/
 
 /-- F-C16-1: `x.f = x.f` empties the field -/
 theorem C16_cex_self_assign :
     trigSelfAssign [.assignSelf] = true ∧
-    (runC Quirks.asIs false ⟨[1, 2], [1, 2]⟩ [.assignSelf]).c = [] ∧
-    (specC false ⟨[1, 2], [1, 2]⟩ [.assignSelf]).c = [1, 2] := by decide
+    (runC id Quirks.asIs false ⟨[1, 2], [1, 2]⟩ [.assignSelf]).c = [] ∧
+    (specC id false ⟨[1, 2], [1, 2]⟩ [.assignSelf]).c = [1, 2] := by decide
 
 /-- F-C16-2: `x.f += [2]` / `x.f |= {2}` empties the field -/
 theorem C16_cex_iadd :
     trigIadd [.iadd [2]] = true ∧
-    (runC Quirks.asIs false ⟨[1], [1]⟩ [.iadd [2]]).c = [] ∧ (specC false ⟨[1], [1]⟩ [.iadd [2]]).c = [1, 2] ∧
-    (runC Quirks.asIs true ⟨[1], [1]⟩ [.iadd [2]]).c = [] := by decide
+    (runC id Quirks.asIs false ⟨[1], [1]⟩ [.iadd [2]]).c = [] ∧ (specC id false ⟨[1], [1]⟩ [.iadd [2]]).c = [1, 2] ∧
+    (runC id Quirks.asIs true ⟨[1], [1]⟩ [.iadd [2]]).c = [] := by decide
 
 /-- F-C16-3: an assigned list comes back without repetitions, in hash order -/
 theorem C16_cex_list_order :
-    trigListOrder false [.assign [3, 1, 3, 0]] = true ∧
-    (runC Quirks.asIs false ⟨[], []⟩ [.assign [3, 1, 3, 0]]).c = [0, 1, 3] ∧
-    (specC false ⟨[], []⟩ [.assign [3, 1, 3, 0]]).c = [3, 1, 3, 0] := by decide
+    trigListOrder [.assign [3, 1, 3, 0]] = true ∧
+    (runC id Quirks.asIs false ⟨[], []⟩ [.assign [3, 1, 3, 0]]).c = [0, 1, 3] ∧
+    (specC id false ⟨[], []⟩ [.assign [3, 1, 3, 0]]).c = [3, 1, 3, 0] := by decide
 
 /-- F-C16-4: `s = x.f; s |= {4}` stores the element without asserting it -/
 theorem C16_cex_ior_bypass :
     trigBypass [.iaddAlias [4]] = true ∧
-    (runC Quirks.asIs true ⟨[1], [1]⟩ [.iaddAlias [4]]) = ⟨[1, 4], [1]⟩ ∧
-    (specC true ⟨[1], [1]⟩ [.iaddAlias [4]]) = ⟨[1, 4], [1, 4]⟩ := by decide
+    (runC id Quirks.asIs true ⟨[1], [1]⟩ [.iaddAlias [4]]) = ⟨[1, 4], [1]⟩ ∧
+    (specC id true ⟨[1], [1]⟩ [.iaddAlias [4]]) = ⟨[1, 4], [1, 4]⟩ := by decide
 
 /-! Non-vacuity of `C16_partial` / `C16_full` (tests): a sequence of every admitted operation -/
 example :
     let ops : List COp := [.append 3, .extend [1, 3], .insert (-1) 2, .setitem 0 5, .assign [0, 4, 7], .append 4]
     (∀ op ∈ ops, op.applicable false = true) ∧ trigSelfAssign ops = false ∧ trigIadd ops = false ∧
-    trigListOrder false ops = false ∧ trigBypass ops = false ∧
-    runC Quirks.asIs false ⟨[], []⟩ ops = ⟨[0, 4, 7, 4], [3, 1, 3, 2, 5, 0, 4, 7, 4]⟩ := by decide
+    trigListOrder ops = false ∧ trigBypass ops = false ∧
+    runC id Quirks.asIs false ⟨[], []⟩ ops = ⟨[0, 4, 7, 4], [3, 1, 3, 2, 5, 0, 4, 7, 4]⟩ := by decide
 example :
     let ops : List COp := [.append 3, .assignSelf, .iadd [1, 3], .iaddAlias [2], .assign [3, 1, 3]]
-    (runC Quirks.none false ⟨[], []⟩ ops).c = (specC false ⟨[], []⟩ ops).c ∧
-    (runC Quirks.none false ⟨[], []⟩ [.append 3, .assignSelf, .iadd [1, 3], .iaddAlias [2]]).c = [3, 1, 3, 2] := by
+    (runC id Quirks.none false ⟨[], []⟩ ops).c = (specC id false ⟨[], []⟩ ops).c ∧
+    (runC id Quirks.none false ⟨[], []⟩ [.append 3, .assignSelf, .iadd [1, 3], .iaddAlias [2]]).c = [3, 1, 3, 2] := by
   decide
+
+/-- value equality (test): objects 2 and 3 compare equal (`key = · / 2`). A list keeps both and asserts both; a set
+keeps the first and still asserts both, exactly as two individual `add` calls do. -/
+example :
+    runC (· / 2) Quirks.none false ⟨[], []⟩ [.extend [2, 3, 2], .iaddAlias [3]] = ⟨[2, 3, 2, 3], [2, 3, 2, 3]⟩ ∧
+    runC (· / 2) Quirks.none true ⟨[], []⟩ [.extend [2, 3], .iadd [3, 4]] = ⟨[2, 4], [2, 3, 3, 4, 2, 4]⟩ ∧
+    (specC (· / 2) true ⟨[], []⟩ [.extend [2, 3], .iadd [3, 4]]).c = [2, 4] := by decide
 
 /-! ### Two owners: a field whose first assignment receives another instance's live container -/
 
-structure TRel (isSet : Bool) (m s : TState) : Prop where
-  ra : CRel isSet m.a s.a
-  rb : CRel isSet m.b s.b
+structure TRel (key : Nat → Nat) (isSet : Bool) (m s : TState) : Prop where
+  ra : CRel key isSet m.a s.a
+  rb : CRel key isSet m.b s.b
   notBroke : m.broke = false
 
-theorem walkOrder_none_list (xs : List Nat) : walkOrder Quirks.none false xs = xs := by
-  simp [walkOrder, Quirks.none]
-
 /-- a write through one of the two fields while they do not share a container -/
-theorem stepT_on_rel (T : TQuirks) (later isSet : Bool) (m s : TState) (w : Who) (op : COp)
-    (h : TRel isSet m s) (hsh : m.shared = false) (happ : op.applicable isSet = true) :
-    TRel isSet (stepT Quirks.none T later isSet m (.on w op)) (specStepT isSet s (.on w op)) ∧
-    (stepT Quirks.none T later isSet m (.on w op)).shared = false := by
+theorem stepT_on_rel (key : Nat → Nat) (T : TQuirks) (later isSet : Bool) (m s : TState) (w : Who) (op : COp)
+    (h : TRel key isSet m s) (hsh : m.shared = false) (happ : op.applicable isSet = true) :
+    TRel key isSet (stepT key Quirks.none T later isSet m (.on w op)) (specStepT key isSet s (.on w op)) ∧
+    (stepT key Quirks.none T later isSet m (.on w op)).shared = false := by
   have hb := h.notBroke
+  have hq : Quirks.none.inplaceBypass = true → ∀ a b, key a = key b → a = b := fun h' => by cases h'
   cases w with
   | A =>
     simp only [stepT, hb, Bool.false_eq_true, if_false, hsh, specStepT]
-    exact ⟨⟨stepC_rel Quirks.none isSet m.a s.a op h.ra (okFor_none isSet op) happ, h.rb, rfl⟩, trivial⟩
+    exact ⟨⟨stepC_rel key Quirks.none isSet m.a s.a op h.ra hq (okFor_none op) happ, h.rb, rfl⟩, trivial⟩
   | B =>
     simp only [stepT, hb, Bool.false_eq_true, if_false, hsh, specStepT]
-    exact ⟨⟨h.ra, stepC_rel Quirks.none isSet m.b s.b op h.rb (okFor_none isSet op) happ, rfl⟩, trivial⟩
+    exact ⟨⟨h.ra, stepC_rel key Quirks.none isSet m.b s.b op h.rb hq (okFor_none op) happ, rfl⟩, trivial⟩
 
 /-- the adoption itself, whether the container ends up shared or copied, as long as the constructor does not break -/
-theorem stepT_adopt_rel (T : TQuirks) (later isSet : Bool) (m s : TState)
-    (h : TRel isSet m s) (hbr : (T.ctorBreaks && later) = false) :
-    TRel isSet (stepT Quirks.none T later isSet m .adopt) (specStepT isSet s .adopt) := by
+theorem stepT_adopt_rel (key : Nat → Nat) (T : TQuirks) (later isSet : Bool) (m s : TState)
+    (h : TRel key isSet m s) (hbr : (T.ctorBreaks && later) = false) :
+    TRel key isSet (stepT key Quirks.none T later isSet m .adopt) (specStepT key isSet s .adopt) := by
   have hb := h.notBroke
-  have hmem : ∀ y, y ∈ (walkOrder Quirks.none isSet m.a.c).foldl (rawAdd isSet) [] ↔ y ∈ m.a.c := by
-    intro y; simp only [mem_foldl_rawAdd, mem_walkOrder, List.not_mem_nil, false_or]
-  have hlist : isSet = false → (walkOrder Quirks.none isSet m.a.c).foldl (rawAdd isSet) [] = m.a.c := by
-    intro hl; subst hl; rw [walkOrder_none_list, foldl_rawAdd_list]; rfl
-  have rb' : CRel isSet
-      ⟨(walkOrder Quirks.none isSet m.a.c).foldl (rawAdd isSet) [], m.b.calls ++ walkOrder Quirks.none isSet m.a.c⟩
-      ⟨s.a.c.foldl (rawAdd isSet) [], s.b.calls ++ s.a.c⟩ := by
-    refine ⟨?_, ?_, ?_, ?_⟩
-    · intro hl
-      show (walkOrder Quirks.none isSet m.a.c).foldl (rawAdd isSet) [] = s.a.c.foldl (rawAdd isSet) []
-      rw [hlist hl, h.ra.list_eq hl]; subst hl; rw [foldl_rawAdd_list]; rfl
+  have hw : walkOrder Quirks.none m.a.c = m.a.c := walkOrder_off _ rfl _
+  have rb' : CRel key isSet
+      ⟨m.a.c.foldl (rawAdd key isSet) [], m.b.calls ++ m.a.c⟩
+      ⟨s.a.c.foldl (rawAdd key isSet) [], s.b.calls ++ s.a.c⟩ := by
+    refine ⟨by rw [h.ra.c_eq], ?_, ?_, ?_⟩
     · intro y
-      show y ∈ (walkOrder Quirks.none isSet m.a.c).foldl (rawAdd isSet) [] ↔ y ∈ s.a.c.foldl (rawAdd isSet) []
-      rw [hmem, mem_foldl_rawAdd, h.ra.mem_c]; simp
-    · intro y
-      show y ∈ m.b.calls ++ walkOrder Quirks.none isSet m.a.c ↔ y ∈ s.b.calls ++ s.a.c
-      simp only [List.mem_append, mem_walkOrder, h.rb.mem_calls, h.ra.mem_c]
+      show y ∈ m.b.calls ++ m.a.c ↔ y ∈ s.b.calls ++ s.a.c
+      simp only [List.mem_append, h.rb.mem_calls, h.ra.c_eq]
     · intro y hy
-      change y ∈ (walkOrder Quirks.none isSet m.a.c).foldl (rawAdd isSet) [] at hy
-      show y ∈ m.b.calls ++ walkOrder Quirks.none isSet m.a.c
-      exact List.mem_append_right _ ((mem_walkOrder _ _ _ _).mpr ((hmem y).mp hy))
-  simp only [stepT, hb, Bool.false_eq_true, if_false, specStepT]
-  have hbr' : (T.ctorBreaks && later && !(walkOrder Quirks.none isSet m.a.c).isEmpty) = false := by
-    rw [hbr]; rfl
+      change y ∈ m.a.c.foldl (rawAdd key isSet) [] at hy
+      show y ∈ m.b.calls ++ m.a.c
+      rcases mem_foldl_rawAdd_sub key isSet _ [] y hy with hy | hy
+      · simp at hy
+      · exact List.mem_append_right _ hy
+    · intro hl; subst hl
+      exact kd_foldl key _ [] (kd_nil key)
+  simp only [stepT, hb, Bool.false_eq_true, if_false, specStepT, hw]
+  have hbr' : (T.ctorBreaks && later && !m.a.c.isEmpty) = false := by rw [hbr]; rfl
   simp only [hbr', Bool.false_eq_true, if_false]
   cases hT : T.adoptShares
   · simp only [Bool.false_eq_true, if_false]
     exact ⟨h.ra, rb', rfl⟩
   · simp only [if_true]
-    refine ⟨⟨?_, ?_, ?_, ?_⟩, rb', rfl⟩
-    · intro hl
-      show (walkOrder Quirks.none isSet m.a.c).foldl (rawAdd isSet) [] = s.a.c
-      rw [hlist hl, h.ra.list_eq hl]
-    · intro y
-      show y ∈ (walkOrder Quirks.none isSet m.a.c).foldl (rawAdd isSet) [] ↔ y ∈ s.a.c
-      rw [hmem, h.ra.mem_c]
-    · exact h.ra.mem_calls
+    refine ⟨⟨?_, h.ra.mem_calls, ?_, ?_⟩, rb', rfl⟩
+    · show m.a.c.foldl (rawAdd key isSet) [] = s.a.c
+      rw [refold key isSet m.a.c h.ra.kd, h.ra.c_eq]
     · intro y hy
-      change y ∈ (walkOrder Quirks.none isSet m.a.c).foldl (rawAdd isSet) [] at hy
-      exact h.ra.c_in_calls y ((hmem y).mp hy)
+      change y ∈ m.a.c.foldl (rawAdd key isSet) [] at hy
+      rw [refold key isSet m.a.c h.ra.kd] at hy
+      exact h.ra.c_in_calls y hy
+    · intro hl
+      show KeyDistinct key (m.a.c.foldl (rawAdd key isSet) [])
+      rw [refold key isSet m.a.c h.ra.kd]; exact h.ra.kd hl
 
 /-- **C16_two_general.** Two owners, any repair state of the adoption: as long as the constructor does not break and
 — when the adopted container is shared — nothing is written after the adoption, both fields hold what Python
 semantics dictate for fields that own their contents, and each owner has asserted exactly what entered ITS field. -/
-theorem C16_two_general (T : TQuirks) (later isSet : Bool) (hbr : (T.ctorBreaks && later) = false)
-    (ops : List TOp) :
-    ∀ (m s : TState), TRel isSet m s → m.shared = false →
+theorem C16_two_general (key : Nat → Nat) (T : TQuirks) (later isSet : Bool)
+    (hbr : (T.ctorBreaks && later) = false) (ops : List TOp) :
+    ∀ (m s : TState), TRel key isSet m s → m.shared = false →
       (∀ op ∈ ops, op.applicable isSet = true) →
       (T.adoptShares = true → trigAdoptShares ops = false) →
-      TRel isSet (runT Quirks.none T later isSet m ops) (specT isSet s ops) := by
+      TRel key isSet (runT key Quirks.none T later isSet m ops) (specT key isSet s ops) := by
   induction ops with
   | nil => intro m s h _ _ _; exact h
   | cons op ops ih =>
@@ -484,20 +534,19 @@ theorem C16_two_general (T : TQuirks) (later isSet : Bool) (hbr : (T.ctorBreaks 
     have happ' : ∀ o ∈ ops, o.applicable isSet = true := fun o ho => happ o (List.mem_cons_of_mem _ ho)
     cases op with
     | on w cop =>
-      have h1 := stepT_on_rel T later isSet m s w cop h hsh (by simpa [TOp.applicable] using happ _ List.mem_cons_self)
+      have h1 := stepT_on_rel key T later isSet m s w cop h hsh
+        (by simpa [TOp.applicable] using happ _ List.mem_cons_self)
       exact ih _ _ h1.1 h1.2 happ' (fun hT => by simpa [trigAdoptShares] using htrig hT)
     | adopt =>
-      have h1 := stepT_adopt_rel T later isSet m s h hbr
+      have h1 := stepT_adopt_rel key T later isSet m s h hbr
       cases hT : T.adoptShares
-      · -- copied: the fields stay separate
-        have hsh' : (stepT Quirks.none T later isSet m .adopt).shared = false := by
-          have hbr' : (T.ctorBreaks && later && !(walkOrder Quirks.none isSet m.a.c).isEmpty) = false := by
-            rw [hbr]; rfl
-          simp only [stepT, h.notBroke, Bool.false_eq_true, if_false, hbr', hT]
+      · have hsh' : (stepT key Quirks.none T later isSet m .adopt).shared = false := by
+          have hw : walkOrder Quirks.none m.a.c = m.a.c := walkOrder_off _ rfl _
+          have hbr' : (T.ctorBreaks && later && !m.a.c.isEmpty) = false := by rw [hbr]; rfl
+          simp only [stepT, h.notBroke, Bool.false_eq_true, if_false, hw, hbr', hT]
           exact hsh
         exact ih _ _ h1 hsh' happ' (fun hT' => by rw [hT] at hT'; cases hT')
-      · -- shared: nothing follows
-        have : ops = [] := by
+      · have : ops = [] := by
           have := htrig hT
           simpa [trigAdoptShares] using this
         subst this
@@ -505,42 +554,48 @@ theorem C16_two_general (T : TQuirks) (later isSet : Bool) (hbr : (T.ctorBreaks 
 
 def TState.start (σ : CState) : TState := ⟨σ, ⟨[], []⟩, false, .A, false⟩
 
-theorem TRel.start (isSet : Bool) (σ : CState) (hσ : ∀ x ∈ σ.c, x ∈ σ.calls) :
-    TRel isSet (TState.start σ) (TState.start σ) :=
-  ⟨CRel.refl_of isSet σ hσ, CRel.refl_of isSet _ (by intro x hx; cases hx), rfl⟩
+theorem TRel.start (key : Nat → Nat) (isSet : Bool) (σ : CState) (hσ : ∀ x ∈ σ.c, x ∈ σ.calls)
+    (hk : isSet = true → KeyDistinct key σ.c) :
+    TRel key isSet (TState.start σ) (TState.start σ) :=
+  ⟨CRel.refl_of key isSet σ hσ hk, CRel.refl_of key isSet _ (by intro x hx; cases hx) (fun _ => kd_nil key), rfl⟩
 
 /-- **C16_two_full.** With a first assignment that gives the new instance a container of its own and a constructor
 that tolerates inference into fields not yet initialised (both quirks off): every two-owner sequence. -/
-theorem C16_two_full (later isSet : Bool) (σ : CState) (hσ : ∀ x ∈ σ.c, x ∈ σ.calls) (ops : List TOp)
+theorem C16_two_full (key : Nat → Nat) (later isSet : Bool) (σ : CState) (hσ : ∀ x ∈ σ.c, x ∈ σ.calls)
+    (hk : isSet = true → KeyDistinct key σ.c) (ops : List TOp)
     (happ : ∀ op ∈ ops, op.applicable isSet = true) :
-    TRel isSet (runT Quirks.none TQuirks.none later isSet (TState.start σ) ops) (specT isSet (TState.start σ) ops) :=
-  C16_two_general TQuirks.none later isSet rfl ops _ _ (TRel.start isSet σ hσ) rfl happ (fun h => by cases h)
+    TRel key isSet (runT key Quirks.none TQuirks.none later isSet (TState.start σ) ops)
+      (specT key isSet (TState.start σ) ops) :=
+  C16_two_general key TQuirks.none later isSet rfl ops _ _ (TRel.start key isSet σ hσ hk) rfl happ
+    (fun h => by cases h)
 
 /-- **C16_two_partial.** The code as it is: the same for fields without a later-declared super-property field on
 the same class, as long as nothing is written after the adoption. -/
-theorem C16_two_partial (isSet : Bool) (σ : CState) (hσ : ∀ x ∈ σ.c, x ∈ σ.calls) (ops : List TOp)
+theorem C16_two_partial (key : Nat → Nat) (isSet : Bool) (σ : CState) (hσ : ∀ x ∈ σ.c, x ∈ σ.calls)
+    (hk : isSet = true → KeyDistinct key σ.c) (ops : List TOp)
     (happ : ∀ op ∈ ops, op.applicable isSet = true) (htrig : trigAdoptShares ops = false) :
-    TRel isSet (runT Quirks.none TQuirks.asIs false isSet (TState.start σ) ops) (specT isSet (TState.start σ) ops) :=
-  C16_two_general TQuirks.asIs false isSet rfl ops _ _ (TRel.start isSet σ hσ) rfl happ (fun _ => htrig)
+    TRel key isSet (runT key Quirks.none TQuirks.asIs false isSet (TState.start σ) ops)
+      (specT key isSet (TState.start σ) ops) :=
+  C16_two_general key TQuirks.asIs false isSet rfl ops _ _ (TRel.start key isSet σ hσ hk) rfl happ (fun _ => htrig)
 
 /-- F-C16-5 (test): `b = Cls(f = a.f); b.f.append(2)` — the element shows up in `a.f` and is not recorded for `a` -/
 theorem C16_cex_adopt_shares :
     let ops : List TOp := [.on .A (.append 1), .adopt, .on .B (.append 2)]
     trigAdoptShares ops = true ∧
-    (runT Quirks.none TQuirks.asIs false false (TState.start ⟨[], []⟩) ops).a = ⟨[1, 2], [1]⟩ ∧
-    (specT false (TState.start ⟨[], []⟩) ops).a = ⟨[1], [1]⟩ ∧
-    (specT false (TState.start ⟨[], []⟩) ops).b = ⟨[1, 2], [1, 2]⟩ := by decide
+    (runT id Quirks.none TQuirks.asIs false false (TState.start ⟨[], []⟩) ops).a = ⟨[1, 2], [1]⟩ ∧
+    (specT id false (TState.start ⟨[], []⟩) ops).a = ⟨[1], [1]⟩ ∧
+    (specT id false (TState.start ⟨[], []⟩) ops).b = ⟨[1, 2], [1, 2]⟩ := by decide
 
 /-- F-C16-6 (test): a constructor given initial contents for a field whose super-property field is declared later
 raises -/
 theorem C16_cex_ctor_breaks :
-    (runT Quirks.none TQuirks.asIs true false (TState.start ⟨[], []⟩) [.on .A (.append 1), .adopt]).broke = true ∧
-    (specT false (TState.start ⟨[], []⟩) [.on .A (.append 1), .adopt]).b = ⟨[1], [1]⟩ := by decide
+    (runT id Quirks.none TQuirks.asIs true false (TState.start ⟨[], []⟩) [.on .A (.append 1), .adopt]).broke = true ∧
+    (specT id false (TState.start ⟨[], []⟩) [.on .A (.append 1), .adopt]).b = ⟨[1], [1]⟩ := by decide
 
 /-- non-vacuity of `C16_two_partial` (test) -/
 example :
     let ops : List TOp := [.on .A (.extend [3, 1]), .on .A (.assignView (.filt [1])), .adopt]
     trigAdoptShares ops = false ∧ (∀ op ∈ ops, op.applicable false = true) ∧
-    (runT Quirks.none TQuirks.asIs false false (TState.start ⟨[], []⟩) ops).b = ⟨[1], [1]⟩ := by decide
+    (runT id Quirks.none TQuirks.asIs false false (TState.start ⟨[], []⟩) ops).b = ⟨[1], [1]⟩ := by decide
 
 end KrroodVerif.PD
